@@ -17,7 +17,7 @@ m = re.search(r"([A-Za-z0-9_./-]*/)?((?:cli|core|components|lib|tests|examples|[
 place = None
 for mm in re.finditer(r"[A-Za-z0-9_./-]+_test\.go", head):
     c = mm.group(0)
-    c = re.sub(r"^/tmp/seedwt2?-C\d+/", "", c)
+    c = re.sub(r"^/tmp/seedwt\d*-C\d+/", "", c)
     if "/" in c:
         place = c
         break
